@@ -96,13 +96,21 @@ fn prest_members(k: u32) -> Map<String, Value> {
     m.insert("refreshService".into(), json!({"id": "https://e.x/refresh", "type": "R"}));
     m.insert("termsOfUse".into(), json!({"type": "P"}));
   }
-  if k >= 3 {
+  if k == 3 {
     m.insert("proof".into(), json!({"type": "Ed25519Signature2018", "proofValue": "zzz"}));
     m.insert("extra".into(), json!({"x": [1]}));
   }
+  if k == 4 {
+    // a presentation holding no credential at all (it cannot be read from JSON, only built: `penc` empties the list)
+    let mut m = Map::new();
+    m.insert("@context".into(), json!("https://www.w3.org/2018/credentials/v1"));
+    m.insert("type".into(), json!("VerifiablePresentation"));
+    m.insert("verifiableCredential".into(), json!([]));
+    return m;
+  }
   m
 }
-const NPREST: u32 = 4;
+const NPREST: u32 = 5;
 
 fn kv(t: &str) -> HashMap<&str, &str> {
   t.split(';').filter_map(|p| p.split_once('=')).collect()
@@ -187,8 +195,16 @@ fn rest_index(obj: &Map<String, Value>, table: &dyn Fn(u32) -> Map<String, Value
   if let Some(Value::Object(s)) = o.get_mut("credentialSubject") {
     s.remove("id");
   }
+  // a presentation without credentials writes no `verifiableCredential` member in its own JSON and an empty array inside `vp`
+  let norm = |mut m: Map<String, Value>| -> Map<String, Value> {
+    if m.get("verifiableCredential").and_then(|v| v.as_array()).map(|a| a.is_empty()).unwrap_or(false) {
+      m.remove("verifiableCredential");
+    }
+    m
+  };
+  let o = norm(o);
   for k in 0..n {
-    if Value::Object(table(k)) == Value::Object(o.clone()) {
+    if Value::Object(norm(table(k))) == Value::Object(o.clone()) {
       return k.to_string();
     }
   }
@@ -518,15 +534,18 @@ fn penc(t: &str) -> String {
     (Some(a), Some(Some(b)), Some(Some(c)), Some(d), Some(e), Some(f)) => (a, b, c, d, e, f),
     _ => return "bad-request".into(),
   };
-  let mut pj = prest_members(rest as u32);
+  let mut pj = prest_members(if rest == 4 { 0 } else { rest as u32 });
   if let Some(n) = id {
     pj.insert("id".into(), json!(cid(n)));
   }
   pj.insert("holder".into(), json!(did_i(holder)));
-  let pres: Presentation<Jwt> = match Presentation::from_json_value(Value::Object(pj)) {
+  let mut pres: Presentation<Jwt> = match Presentation::from_json_value(Value::Object(pj)) {
     Ok(p) => p,
     Err(e) => return format!("bad-request:{:?}", e),
   };
+  if rest == 4 {
+    pres.verifiable_credential.clear();
+  }
   let ts = |u: Option<i64>| -> Option<Option<Timestamp>> {
     match u {
       None => Some(None),
